@@ -399,6 +399,10 @@ class _Forms:
         e = strip_array(e)
         if isinstance(e, ast.BinOp) and isinstance(e.op, ast.Div) and call_name(e.right) == "norm" and e.right.args and same(strip_array(e.right.args[0]), strip_array(e.left)):
             return "unit"
+        if isinstance(e, ast.BinOp) and isinstance(e.op, ast.Mult):
+            for vec, fac in ((e.left, e.right), (e.right, e.left)):
+                if call_name(fac) == "norm" and fac.args and same(strip_array(fac.args[0]), strip_array(vec)):
+                    return "raw"  # multiplied by its norm instead of divided: certainly not a unit vector
         x = e
         while isinstance(x, (ast.Attribute, ast.Subscript)):
             x = x.value
